@@ -64,6 +64,11 @@ func runC20(r *Run) {
 		}
 		r.R.Check(ok, P+".version.thread.intake", "E13: the operation is parsed by protocol.Get(version)'s parser and queued with that version's genesis time", core.FuncName(f), r.where(f), why, det, det)
 	}
+	// what is anchored is read back: the count in the anchor string is that of the operations in the files, or the
+	// observer drops the whole batch (shared with C13)
+	if f := r.fn(P, pkgProvider, "OperationHandler.PrepareTxnFiles"); f != nil {
+		r.checkAnchorCount(P, f)
+	}
 	if f := r.fn(P, pkgDocHandler, "DocumentHandler.addToBatch"); f != nil {
 		r.requireSucc(P+".version.thread.addToBatch", why, f, core.Ctx{}, "", "ok(batchWriter.Add(_, _, $2))")
 	}
